@@ -68,6 +68,8 @@ def decode_rules(ctx, tab):
     if m is None:
         if table_decode_rules(ctx, fv, tab):
             return
+        if chain_decode_rules(ctx, fv, tab):
+            return
         ctx.fail("C02.T1", "numeric_to_kmer:match", "digit -> letter mapping (match on `code & 3`, or a 4-entry letter "
                  "table indexed by it) not found", fv.fn["sp"])
         return
@@ -136,7 +138,7 @@ def loop_rules(ctx, fv, m):
               "code >>= 2 per digit", "per-iteration code update is `%s`, expected `code >> 2`" % show(state[wv]),
               line_of(loop))
     pushes = [e for e in eff if e[0] == "call" and (e[1].endswith("String::push") or e[1].endswith("Vec::push"))]
-    push_ok = len(pushes) == 1 and pushes[0][3][0] in ("match", "index") and \
+    push_ok = len(pushes) == 1 and pushes[0][3][0] in ("match", "index", "if") and \
         contains(pushes[0][3], lambda s_: s_ == mk_bin("&", wv, L(3)))
     ctx.check("C02.S2", "numeric_to_kmer:push", push_ok, "one letter pushed per digit, from the un-shifted code",
               "expected exactly one `s.push(letter(code & 3))` before the shift; found %s"
@@ -235,3 +237,50 @@ def table_decode_rules(ctx, fv, tab):
               "letter table has %d entries" % len(letters), line_of(n))
     loop_rules(ctx, fv, n)
     return True
+
+
+
+def chain_decode_rules(ctx, fv, tab):
+    """alternative shape: `if d == 0 { 'A' } else if d == 1 { 'C' } else if d == 2 { 'G' } else { 'T' }` with
+    d = code & 3 — the digit -> letter table is read off by evaluating the chain for d = 0..3"""
+    def ev(t, d):
+        for _ in range(8):
+            if t[0] == "lit":
+                return t[1]
+            if t[0] != "if":
+                return None
+            c = t[1]
+            if not (c[0] == "bin" and c[1] in ("==", "!=")):
+                return None
+            lits = [x for x in (c[2], c[3]) if x[0] == "lit" and isinstance(x[1], int)]
+            others = [x for x in (c[2], c[3]) if x[0] != "lit"]
+            if len(lits) != 1 or len(others) != 1:
+                return None
+            o = others[0]
+            if not (o[0] == "bin" and o[1] == "&" and L(3) in (o[2], o[3])):
+                return None
+            hit = (lits[0][1] == d) == (c[1] == "==")
+            t = t[2] if hit else t[3]
+        return None
+    for n in fv.nodes:
+        if n.get("k") != "if" or fv.parent.get(id(n), {}).get("k") == "if":
+            continue
+        t = fv.term(n)
+        vals = [ev(t, d) for d in range(4)]
+        if any(v is None for v in vals):
+            continue
+        letters = [chr(v) if isinstance(v, int) else v for v in vals]
+        c0 = t[1]
+        scr = [x for x in (c0[2], c0[3]) if x[0] != "lit"][0]
+        ctx.check("C02.T1", "numeric_to_kmer:scrutinee", True, "digit = %s" % show(scr), "", line_of(n))
+        for d, letter in DECODE_SPEC.items():
+            got = letters[d]
+            ctx.check("C02.T1", "numeric_to_kmer:digit_%d" % d, got == letter, "%d -> %r" % (d, letter),
+                      "digit %d decodes to %r, the property requires %r" % (d, got, letter), line_of(n))
+            if isinstance(got, str) and len(got) == 1:
+                ctx.check("C02.T1", "numeric_to_kmer:reencode_%d" % d, tab[ord(got)] == d, "TABLE[%r] = %d" % (got, d),
+                          "decoded letter %r re-encodes to %d, not %d" % (got, tab[ord(got)], d), line_of(n))
+        ctx.check("C02.T1", "numeric_to_kmer:no_extra", True, "a two-bit digit has exactly four values", "", line_of(n))
+        loop_rules(ctx, fv, n)
+        return True
+    return False
